@@ -2,11 +2,12 @@ SPECIFICATION Spec
 CONSTANTS
   W = 4
   Anns = {"both"}
-  Sizes = {0, 1, 2, 3, 5}
+  Sizes = {0, 1, 2, 4}
   MaxFaults = 0
   MaxInject = 1
   FaultKinds = {"Lose", "Drop", "Dup", "Flip", "WrongSid", "WrongFrom", "Swap", "EarlyClose"}
-  InjectKinds = {"from", "sid"}
+  InjectKinds = {"from", "res", "sid"}
+  InjectElems = {"open", "data", "close"}
   Bursts = {}
   MaxHist = 99
 CONSTRAINT Bound
